@@ -410,6 +410,19 @@ func (c *Ctx) checkHolders(h *ssa.Function) {
 		if tally == nil {
 			continue
 		}
+		// the fingerprint the lists are tallied under is injective on the list: what is hashed is a structured
+		// encoding (the JSON of the sorted "address:value" strings), not the bare concatenation of variable-length
+		// fields (lists that are shifted across a field boundary would be tallied together)
+		if sh := p.Func("oracle/types.MsgHoldersClaim.StabilizedClaimHash"); sh != nil {
+			structured := false
+			ana.Calls(sh, func(site ssa.CallInstruction, d ana.CalleeDesc) {
+				if (d.Pkg == "encoding/json" && strings.HasPrefix(d.Name, "Marshal")) || d.Name == "MustMarshalJSON" || d.Name == "MustSortJSON" {
+					structured = true
+				}
+			})
+			r.Check(structured, "C18.holders-threshold", "fingerprint", p.Pos(sh.Pos()), "the holder-list fingerprint hashes a structured encoding of the sorted entries",
+				"the holder-list fingerprint hashes the entries without a structured encoding (no delimiters between addresses and values): different lists can share a fingerprint, their stake is added up and the list voted last is adopted")
+		}
 		// the tally map: key = hex of StabilizedClaimHash, value += powers[valaddr]
 		okKey, okVal := false, false
 		detail := ""
